@@ -366,9 +366,26 @@ type AuthService struct {
 	Gate    bool
 	Arrived chan string
 	Release map[string]chan struct{}
+	// FailNext > 0: that many calls (Basic or NTLM) are answered with a gRPC error (backend trouble), then the
+	// service recovers
+	FailNext int
+}
+
+func (a *AuthService) failing() bool {
+	a.mu.Lock()
+	defer a.mu.Unlock()
+	if a.FailNext > 0 {
+		a.FailNext--
+		a.Calls = append(a.Calls, "failed")
+		return true
+	}
+	return false
 }
 
 func (a *AuthService) Authenticate(ctx context.Context, m *auth.UserPass) (*auth.AuthResponse, error) {
+	if a.failing() {
+		return nil, errors.New("scripted backend failure")
+	}
 	a.mu.Lock()
 	gate := a.Gate
 	var rel chan struct{}
@@ -391,6 +408,9 @@ func (a *AuthService) Authenticate(ctx context.Context, m *auth.UserPass) (*auth
 }
 
 func (a *AuthService) NTLM(ctx context.Context, m *auth.NtlmRequest) (*auth.NtlmResponse, error) {
+	if a.failing() {
+		return nil, errors.New("scripted backend failure")
+	}
 	a.mu.Lock()
 	a.Calls = append(a.Calls, "ntlm:"+m.Session)
 	a.mu.Unlock()
